@@ -16,11 +16,21 @@ Fail == [ok |-> FALSE]
 XsdString == <<104,116,116,112,58,47,47,119,119,119,46,119,51,46,111,114,103,47,50,48,48,49,47,88,77,76,83,99,104,101,109,97,35,115,116,114,105,110,103>>
 RECURSIVE SkipWS(_, _)
 SkipWS(s, i) == IF i <= Len(s) /\ WS(s[i]) THEN SkipWS(s, i + 1) ELSE i
-\* IRI body up to '>' (no escapes are produced by sophia's writer; \u escapes are accepted)
-RECURSIVE IriEnd(_, _)
-IriEnd(s, i) == IF i > Len(s) THEN 0 ELSE IF s[i] = 62 THEN i ELSE IF s[i] <= 32 \/ s[i] \in {60, 34, 123, 125, 124, 94, 96, 92} THEN 0 ELSE IriEnd(s, i + 1)
 RECURSIVE HexNum(_, _, _, _)
 HexNum(s, i, n, acc) == IF n = 0 THEN acc ELSE IF i > Len(s) \/ HexVal(s[i]) = 99 THEN 9999999 ELSE HexNum(s, i + 1, n - 1, acc * 16 + HexVal(s[i]))
+\* IRIREF ::= '<' ([^#x00-#x20<>"{}|^`\] | UCHAR)* '>' : returns [ok, v, next] with v the IRI (UCHAR escapes decoded) and next the index
+\* after '>'.  sophia's writer produces no escape, but the grammar allows them and an independent reader has to take them.
+RECURSIVE IriBody(_, _, _)
+IriBody(s, i, acc) ==
+  IF i > Len(s) THEN Fail
+  ELSE IF s[i] = 62 THEN [ok |-> TRUE, v |-> acc, next |-> i + 1]
+  ELSE IF s[i] = 92 THEN
+       IF i + 1 > Len(s) THEN Fail
+       ELSE IF s[i + 1] = 117 THEN LET v == HexNum(s, i + 2, 4, 0) IN IF v = 9999999 THEN Fail ELSE IriBody(s, i + 6, Append(acc, v))
+       ELSE IF s[i + 1] = 85 THEN LET v == HexNum(s, i + 2, 8, 0) IN IF v = 9999999 \/ v > 1114111 THEN Fail ELSE IriBody(s, i + 10, Append(acc, v))
+       ELSE Fail
+  ELSE IF s[i] <= 32 \/ s[i] \in {60, 34, 123, 125, 124, 94, 96} THEN Fail
+  ELSE IriBody(s, i + 1, Append(acc, s[i]))
 \* string body: returns [ok, v, next] where next is the index after the closing quote
 RECURSIVE StrBody(_, _, _)
 StrBody(s, i, acc) ==
@@ -53,8 +63,8 @@ Term(s, i0) ==
        LET j == SkipWS(s, c.next) IN
        IF j + 1 <= Len(s) /\ s[j] = 62 /\ s[j + 1] = 62
        THEN [ok |-> TRUE, t |-> [k |-> "triple", s |-> a.t, p |-> b.t, o |-> c.t], next |-> j + 2] ELSE Fail
-  ELSE IF s[i] = 60 THEN LET e == IriEnd(s, i + 1) IN
-       IF e = 0 THEN Fail ELSE [ok |-> TRUE, t |-> [k |-> "iri", v |-> Sub(s, i + 1, e - 1)], next |-> e + 1]
+  ELSE IF s[i] = 60 THEN LET e == IriBody(s, i + 1, <<>>) IN
+       IF ~e.ok THEN Fail ELSE [ok |-> TRUE, t |-> [k |-> "iri", v |-> e.v], next |-> e.next]
   ELSE IF s[i] = 95 /\ i + 2 <= Len(s) /\ s[i + 1] = 58 /\ (PnCharsU(s[i + 2]) \/ Digit(s[i + 2])) THEN
        LET e == BackOffDots(s, i + 3, RunEnd(s, i + 3, LAMBDA c : PnChars(c) \/ c = 46)) IN
        [ok |-> TRUE, t |-> [k |-> "bnode", v |-> Sub(s, i + 2, e - 1)], next |-> e]
@@ -67,8 +77,8 @@ Term(s, i0) ==
             IF e = b.next + 1 \/ ~Alpha(s[b.next + 1]) THEN Fail
             ELSE [ok |-> TRUE, t |-> [k |-> "lit", lex |-> b.v, dt |-> <<>>, lang |-> Sub(s, b.next + 1, e - 1)], next |-> e]
        ELSE IF b.next + 2 <= Len(s) /\ s[b.next] = 94 /\ s[b.next + 1] = 94 /\ s[b.next + 2] = 60 THEN
-            LET e == IriEnd(s, b.next + 3) IN IF e = 0 THEN Fail
-            ELSE [ok |-> TRUE, t |-> [k |-> "lit", lex |-> b.v, dt |-> Sub(s, b.next + 3, e - 1), lang |-> <<>>], next |-> e + 1]
+            LET e == IriBody(s, b.next + 3, <<>>) IN IF ~e.ok THEN Fail
+            ELSE [ok |-> TRUE, t |-> [k |-> "lit", lex |-> b.v, dt |-> e.v, lang |-> <<>>], next |-> e.next]
        ELSE [ok |-> TRUE, t |-> [k |-> "lit", lex |-> b.v, dt |-> XsdString, lang |-> <<>>], next |-> b.next]
   ELSE Fail
 DG == [k |-> "dg"]
